@@ -203,3 +203,39 @@ Definition disagree_bin (f : func) (op : gop) (tx ty : ity) : list (Z * Z) :=
                     | _, _ => true
                     end)
          (list_prod (pool tx) (pool ty)).
+
+(* ---------- floating-point comparisons ---------- *)
+(* how two floats compare: FUn = unordered (at least one operand is a NaN) *)
+Inductive ford := FLt | FEq | FGt | FUn.
+Inductive fpred := OEQ | ONE | OLT | OLE | OGT | OGE | UEQ | UNE | ULT | ULE | UGT | UGE | ORD | UNO.
+
+(* LangRef: ordered predicates are false on unordered operands, unordered ones true *)
+Definition eval_fpred (p : fpred) (o : ford) : bool :=
+  match p, o with
+  | OEQ, FEq | ONE, FLt | ONE, FGt | OLT, FLt | OLE, FLt | OLE, FEq | OGT, FGt | OGE, FGt | OGE, FEq => true
+  | UEQ, FEq | UEQ, FUn | UNE, FLt | UNE, FGt | UNE, FUn | ULT, FLt | ULT, FUn | ULE, FLt | ULE, FEq | ULE, FUn
+  | UGT, FGt | UGT, FUn | UGE, FGt | UGE, FEq | UGE, FUn => true
+  | ORD, FLt | ORD, FEq | ORD, FGt | UNO, FUn => true
+  | _, _ => false
+  end.
+
+(* Go spec: comparisons involving a NaN are false, except != which is true *)
+Definition go_fcmp (op : gop) (o : ford) : bool :=
+  match op, o with
+  | GEq, FEq | GNe, FLt | GNe, FGt | GNe, FUn | GLt, FLt | GLe, FLt | GLe, FEq | GGt, FGt | GGe, FGt | GGe, FEq => true
+  | _, _ => false
+  end.
+
+(* mirror of floatPredOpToLLVM *)
+Definition fpred_of (op : gop) : fpred :=
+  match op with
+  | GEq => OEQ | GNe => UNE | GLt => OLT | GLe => OLE | GGt => OGT | GGe => OGE
+  | _ => UNO
+  end.
+
+Definition fpred_eqb (a b : fpred) : bool :=
+  match a, b with
+  | OEQ, OEQ | ONE, ONE | OLT, OLT | OLE, OLE | OGT, OGT | OGE, OGE | UEQ, UEQ | UNE, UNE
+  | ULT, ULT | ULE, ULE | UGT, UGT | UGE, UGE | ORD, ORD | UNO, UNO => true
+  | _, _ => false
+  end.
